@@ -276,19 +276,24 @@ def run(chk):
         return chk.finish(trusted_base=TRUSTED)
 
     scns = []
+    if getattr(chk, "replay", None):
+        # replay a recorded scenario (the JSON object in a replays/C06/*.txt file or a corpus line)
+        txt = open(chk.replay).read()
+        j = json.loads(txt[txt.index("{"):])
+        scns = [("replay", j.get("scenario", j))]
     cdir = os.path.join(ROOT, "corpus", "C06")
-    if os.path.isdir(cdir):
+    if os.path.isdir(cdir) and not scns:
         for f in sorted(os.listdir(cdir)):
             if f.endswith(".json"):
                 for l in open(os.path.join(cdir, f)):
                     if l.strip() and not l.startswith("#"):
                         scns.append(("corpus:" + f, json.loads(l)))
     n_corpus = len(scns)
-    ex = exhaustive_small()
+    ex = [] if scns and scns[0][0] == "replay" else exhaustive_small()
     if quick:
         ex = [e for i, e in enumerate(ex) if i % 3 == chk.seed % 3]
     scns += [("exhaustive", s) for s in ex]
-    n_rand = (700 if quick else 12000) * factor
+    n_rand = 0 if scns and scns[0][0] == "replay" else (1500 if quick else 12000) * factor
     scns += [("random", gen_scenario(chk.rng)) for _ in range(n_rand)]
 
     tr = [translate(s) for _, s in scns]
@@ -307,6 +312,8 @@ def run(chk):
     model_t = [parse_term(x) for x in model]
 
     distinct = set()
+    found = []   # (size, failing_input, what, payload): reported smallest first (selection shrinking:
+                 # the exhaustive part contains the minimal placements)
     for (src, scn), t, it, mt in zip(scns, tr, impl_t, model_t):
         chk.coverage["evaluations"] += 1
         m_obs, m_sts, m_complete, oracle = mt[1], mt[2], mt[3], mt[4]
@@ -336,20 +343,25 @@ def run(chk):
                            "impl": show_term(it), "model_obs": show_term(m_obs),
                            "model_statuses": show_term(m_sts), "complete": m_complete}, indent=1)
         if oracle != "true":
-            chk.violation("a wait returned before the actor had fully stopped, a waiter was never woken, "
+            found.append((len(scn["ops"]), True,
+                          "a wait returned before the actor had fully stopped, a waiter was never woken, "
                           "or the status moved backwards",
                           "C06 oracle check_C06 rejects the implementation's observations "
                           "(waiter outcomes with the snapshot taken at each return; OPending = still parked "
-                          "at quiescence after the exit completed)\n" + desc)
+                          "at quiescence after the exit completed)\n" + desc))
         elif iv != mv or i_sts != m_sts or errs != t["expect_err"]:
             chk.coverage["disagreements_checked"] += 1
             what = ("waiter outcomes/snapshots" if iv != mv else
                     "status after each operation" if i_sts != m_sts else "which *_and_wait calls fail to send")
-            chk.violation("model/implementation disagree: " + what,
-                          f"correspondence E1:eng_wait view differs ({what}); the oracle accepts the implementation's run\n" + desc,
-                          failing_input=False)
+            found.append((len(scn["ops"]), False, "model/implementation disagree: " + what,
+                          f"correspondence E1:eng_wait view differs ({what}); the oracle accepts the implementation's run\n" + desc))
         if len(chk.coverage["samples"]) < 3 and src == "random" and n_before >= 3:
             chk.coverage["samples"].append(json.loads(desc))
+    found.sort(key=lambda x: x[0])
+    for _, fi, what, payload in found[:40]:
+        chk.violation(what, payload, failing_input=fi)
+    chk.coverage["failing_scenarios"] = sum(1 for f in found if f[1])
+    chk.coverage["disagreeing_scenarios"] = sum(1 for f in found if not f[1])
     chk.coverage["traces_validated_against_impl"] = len(scns)
     chk.coverage["distinct_nontrivial"] = len(distinct)
     chk.coverage["corpus_scenarios"] = n_corpus
